@@ -135,6 +135,15 @@ example : ∀ t, (ParFor.run (ParFor.threadProg (fun i => i + 1) [[2, 0], [1]]) 
     rw [h1]
     simp [ParFor.run, ParFor.step, ParFor.threadProg, ParFor.iterEvents, ParFor.c0, ParFor.upd, ParFor.execEv]
 
+/-- the negative side (what the `prange` descriptor guards against, cf. the mutation "shared accumulator instead of
+    the reduction" of the status file): if two threads update the *same* location with a load and a store, the
+    interleaving load-load-store-store loses an update — witness by evaluation -/
+theorem shared_accumulator_is_schedule_dependent :
+    (ParFor.run ParFor.sharedProg ParFor.c0 [0, 0, 1, 1]).mem 0 = 2 ∧
+      (ParFor.run ParFor.sharedProg ParFor.c0 [0, 1, 0, 1]).mem 0 = 1 ∧ ¬ ParFor.RaceFree ParFor.sharedProg :=
+  ⟨ParFor.shared_accumulator_loses_update.1, ParFor.shared_accumulator_loses_update.2,
+    ParFor.sharedProg_not_raceFree⟩
+
 /-- OpenMP's `schedule(static)` — the schedule the model runs for the `run` lines of the harness — is a valid
     schedule for every number of iterations and every number of threads (so the hypotheses of the theorems of this
     section are met at every size) -/
